@@ -1,9 +1,61 @@
-(* C36 — property theorems only. *)
+(* C36 — property theorems only.  w is the address width (32 for IPv4, 128 for IPv6); every
+   theorem holds for every w.  [wf] is the trie invariant (Proofs.v), [to_slice t] (the model
+   of ToSlice) is the finite map of stored prefixes, sorted by (address, length). *)
 From Coq Require Import List NArith Arith Bool.
 From Verif.Common Require Import Prefix.
-From Verif.C36 Require Import Model Spec Proofs.
+From Verif.C36 Require Import Model Spec Proofs Queries History.
 Import ListNotations.
 
-Theorem c36_update_empty : forall w c v, to_slice (update w Leaf c v) = [(c, v)].
-Proof. exact update_empty. Qed.
-Print Assumptions c36_update_empty.
+(* Update keeps the invariant and is insertion into the map of stored prefixes. *)
+Theorem c36_update : forall w t c v, wf w t -> wfp w c ->
+  wf w (update w t c v) /\ to_slice (update w t c v) = m_insert c v (to_slice t).
+Proof. intros w t c v W Hc. destruct (update_spec w v c Hc t W) as (A & B & _). auto. Qed.
+Print Assumptions c36_update.
+
+(* Delete keeps the invariant and is removal from the map of stored prefixes. *)
+Theorem c36_delete : forall w t c, wf w t -> wfp w c ->
+  wf w (delete w t c) /\ to_slice (delete w t c) = m_remove c (to_slice t).
+Proof. intros w t c W Hc. exact (delete_spec w c t Hc W). Qed.
+Print Assumptions c36_delete.
+
+(* After any history of operations from the empty trie: invariant + abstraction. *)
+Theorem c36_history : forall w ops, forallb (op_wf w) ops = true ->
+  wf w (run_trie w Leaf ops) /\ to_slice (run_trie w Leaf ops) = fold_left spec_step ops [].
+Proof. intros w ops H. exact (run_trie_spec w ops Leaf I H). Qed.
+Print Assumptions c36_history.
+
+Example c36_history_nontrivial :
+  let ops := [OpUpdate (mkP 167772160 28) 1; OpUpdate (mkP 167772168 30) 2; OpUpdate (mkP 167772162 31) 3;
+              OpDelete (mkP 167772160 28)]%N in
+  forallb (op_wf 32) ops = true /\
+  run_trie 32 Leaf ops = Node (mkP 167772160 28) None (Node (mkP 167772162 31) (Some 3%N) Leaf Leaf)
+                                                     (Node (mkP 167772168 30) (Some 2%N) Leaf Leaf).
+Proof. split; vm_compute; reflexivity. Qed.
+
+(* Exact lookup *)
+Theorem c36_get : forall w t q, wf w t -> wfp w q -> get w t q = m_get q (to_slice t).
+Proof. exact get_spec. Qed.
+Print Assumptions c36_get.
+
+(* Coverage: some stored prefix covers the query *)
+Theorem c36_covers : forall w t q, wf w t -> wfp w q -> tcovers w t q = spec_covers w (to_slice t) q.
+Proof. intros w t q W Hq. exact (covers_spec_trie w q Hq t W). Qed.
+Print Assumptions c36_covers.
+
+(* Intersection: some stored prefix lies inside the query *)
+Theorem c36_intersects : forall w t q, wf w t -> wfp w q ->
+  tintersects w t q = spec_intersects w (to_slice t) q.
+Proof. intros w t q W Hq. exact (intersects_spec_trie w q Hq t W). Qed.
+Print Assumptions c36_intersects.
+
+(* Longest-prefix match of an address (host query, as at every call site) *)
+Theorem c36_lpm_host : forall w t a, wf w t -> (a < 2 ^ N.of_nat w)%N ->
+  lpm w t (host w a) = spec_lpm_addr w (to_slice t) a.
+Proof. exact lpm_host_spec. Qed.
+Print Assumptions c36_lpm_host.
+
+(* LookupPath: if q is stored, all stored prefixes covering q, shortest first *)
+Theorem c36_lookup_path : forall w t q, wf w t -> wfp w q ->
+  lookup_path w t [] q = spec_path w (to_slice t) q.
+Proof. exact lookup_path_spec. Qed.
+Print Assumptions c36_lookup_path.
